@@ -510,10 +510,10 @@ func scopeAgreement(c *Ctx, rule string) Kinds {
 // evaluation roots: call sites whose node argument is not a child of the node being evaluated
 var evalRoots = map[string]string{
 	"(*lang.Evaluator).callFunction -> (*lang.Evaluator).evalStatement(ExprFunction.Body)": "function bodies are evaluated at call time; callFunction consumes errReturn (consumption table) and functions are parsed with inLoop false",
-	"(*lang.Evaluator).evalRules -> (*lang.Evaluator).evalExpr(Rule.Pattern)":               "rule patterns are roots, parsed with both flags false",
-	"(*lang.Evaluator).evalRules -> (*lang.Evaluator).evalStatement(Rule.Body)":             "rule bodies are roots, parsed with both flags false",
-	"lang.EvalProgram -> (*lang.Evaluator).evalStatement(Rule.Body)":                        "BEGIN/END/BEGINFILE/ENDFILE bodies are roots, parsed with both flags false",
-	"lang.EvalExpression -> (*lang.Evaluator).evalExpr(Expr)":                               "the selector expression is a root, parsed by ParseExpression with both flags false",
+	"(*lang.Evaluator).evalRules -> (*lang.Evaluator).evalExpr(Rule.Pattern)":              "rule patterns are roots, parsed with both flags false",
+	"(*lang.Evaluator).evalRules -> (*lang.Evaluator).evalStatement(Rule.Body)":            "rule bodies are roots, parsed with both flags false",
+	"lang.EvalProgram -> (*lang.Evaluator).evalStatement(Rule.Body)":                       "BEGIN/END/BEGINFILE/ENDFILE bodies are roots, parsed with both flags false",
+	"lang.EvalExpression -> (*lang.Evaluator).evalExpr(Expr)":                              "the selector expression is a root, parsed by ParseExpression with both flags false",
 }
 
 func isNodeType(T interface{ String() string }) bool {
